@@ -1,4 +1,5 @@
 import GeoVerif.Model.Conic
+import GeoVerif.Model.ConicKernels
 import GeoVerif.Spec.RealInst
 import GeoVerif.Proofs.Conic
 import Mathlib.Tactic.Ring
@@ -482,5 +483,223 @@ theorem Deatanhe_dd_prolate (es x y : ℝ) (hes : es ≤ 0) (hprod : -1 < es * x
 
 example : (-(1 / 2) : ℝ) ≤ 0 ∧ (-1 : ℝ) < -(1 / 2) * 1 * (-(1 / 2) * (1 / 3)) := by
   constructor <;> norm_num
+
+/-! ## The cone kernels (`Model/ConicKernels.lean`): the coded expressions are the textbook closed forms -/
+
+/-- **Cone geometry.**  With `nrho0 = n ρ0` and `drho = ρ − ρ0` the coded `x`, `y` are Snyder's `ρ sin θ`, `ρ0 − ρ cos θ`
+    (both branches of the cancellation-free `1 − cos θ`). -/
+theorem cone_xy_closed (n ρ0 drho s c lam : ℝ) (hn : n ≠ 0) (hsc : s ^ 2 + c ^ 2 = 1) :
+    coneX (n * ρ0) n drho s lam = (ρ0 + drho) * s ∧ coneY (n * ρ0) n drho s c = ρ0 - (ρ0 + drho) * c := by
+  constructor
+  · simp only [coneX, eqb_real, zero_real, hn, decide_false, Bool.not_false, if_true]
+    field_simp
+  · simp only [coneY, eqb_real, ltb_real, zero_real, one_real, sq_real, hn, decide_false, Bool.not_false, if_true]
+    by_cases hc : c < 0
+    · simp only [hc, decide_true, if_true]
+      field_simp
+      ring
+    · simp only [hc, decide_false, Bool.false_eq_true, if_false]
+      have h1 : 1 + c ≠ 0 := by
+        have := not_lt.mp hc
+        linarith
+      have hs : s ^ 2 = (1 - c) * (1 + c) := by linear_combination hsc
+      rw [hs]
+      field_simp
+      ring
+
+/-- **LCC `Forward`: `drho = ρ − ρ0`.**  For a cone with `n² + nc² = 1`, `n ≠ 0`, the coded `drho` (either branch: the
+    direct form with `exp((1−n)ψ)·e^{−ψ}` or the divided difference `Dexp`) is `(scale/n)(e^{−nψ} − e^{−nψ0})`, i.e.
+    `ρ(φ) − ρ(φ0)` for Snyder's `ρ = a F tⁿ` with `t = e^{−ψ}`, `a F = scale/n`. -/
+theorem lcc_drho_closed (scale n nc psi0 tchi : ℝ) (hn : n ≠ 0) (h1n : 1 + n ≠ 0) (hnc : nc ^ 2 = (1 - n) * (1 + n)) :
+    lccDrho scale n nc (expm1 (-n * psi0)) psi0 tchi (hyp tchi) (Real.arsinh tchi) (Real.arsinh tchi - psi0) =
+      scale / n * (Real.exp (-n * Real.arsinh tchi) - Real.exp (-n * psi0)) := by
+  set psi := Real.arsinh tchi with hpsi
+  unfold lccDrho
+  simp only [expm1_real, emPsi_real, sq_real, eqb_real, ltb_real, zero_real, one_real, two_real, exp_real]
+  have hfrac : nc ^ 2 / (1 + n) = 1 - n := by rw [hnc]; field_simp
+  by_cases hb : (2 * nc < 1 ∧ ¬ (psi - psi0 = 0))
+  · obtain ⟨h1, h2⟩ := hb
+    simp only [h1, h2, decide_true, decide_false, Bool.not_false, Bool.and_self, if_true]
+    rw [hfrac, ← hpsi, ← Real.exp_add]
+    have e1 : (1 - n) * psi + -psi = -n * psi := by ring
+    rw [e1]
+    field_simp
+    ring
+  · have hcond : (decide (2 * nc < 1) && !decide (psi - psi0 = 0)) = false := by
+      by_cases h1 : 2 * nc < 1
+      · have h2 : psi - psi0 = 0 := by
+          by_contra h2
+          exact hb ⟨h1, h2⟩
+        simp [h1, h2]
+      · simp [h1]
+    simp only [hcond, Bool.false_eq_true, if_false]
+    by_cases hd : psi - psi0 = 0
+    · have : psi = psi0 := by linarith
+      rw [this]; simp
+    · have hne : -n * psi ≠ -n * psi0 := by
+        intro h
+        apply hd
+        have : n * (psi - psi0) = 0 := by linarith
+        rcases mul_eq_zero.mp this with h' | h'
+        · exact absurd h' hn
+        · exact h'
+      rw [Dexp_dd _ _ hne]
+      have hxy : -n * psi - -n * psi0 = -n * (psi - psi0) := by ring
+      rw [hxy]
+      generalize Real.exp (-n * psi) = A
+      generalize Real.exp (-n * psi0) = B
+      have hd' : psi - psi0 ≠ 0 := hd
+      field_simp
+
+/-- **LCC `Forward`: the scale.**  `k = k0 (scβ e^{−nψ}) / (scβ0 e^{−nψ0})`, i.e. `k/k0 = (ρ/m)/(ρ0/m0)` with `m = 1/scβ`. -/
+theorem lcc_k_closed (k0 scbet0 n nc scbet tchi tchi0 : ℝ) (h1n : 1 + n ≠ 0) (hnc : nc ^ 2 = (1 - n) * (1 + n)) (hs0 : scbet0 ≠ 0) :
+    lccK k0 scbet0 tchi0 (hyp tchi0) n nc scbet tchi (hyp tchi) (Real.arsinh tchi - Real.arsinh tchi0) =
+      k0 * (scbet * Real.exp (-n * Real.arsinh tchi)) / (scbet0 * Real.exp (-n * Real.arsinh tchi0)) := by
+  unfold lccK
+  simp only [epPsi_real, sq_real, one_real, exp_real]
+  have hfrac : nc ^ 2 / (1 + n) = 1 - n := by rw [hnc]; field_simp
+  rw [hfrac, add_comm (hyp tchi0) tchi0, ← exp_arsinh_hyp]
+  set p := Real.arsinh tchi
+  set p0 := Real.arsinh tchi0
+  have e : Real.exp (-(1 - n) * (p - p0)) * Real.exp p / Real.exp p0 = Real.exp (-n * p0) / Real.exp (-n * p) := by
+    rw [div_eq_div_iff (Real.exp_pos _).ne' (Real.exp_pos _).ne', ← Real.exp_add, ← Real.exp_add, ← Real.exp_add]
+    congr 1; ring
+  rw [e]
+  have h1 := (Real.exp_pos (-n * p)).ne'
+  have h2 := (Real.exp_pos (-n * p0)).ne'
+  field_simp
+
+/-- **Prescribed scale on the first standard parallel**: with the `_k0` that `Init` computes from `k1`, the scale
+    `Forward` returns on that parallel is `k1` — for every cone constant (an identity of the two coded expressions). -/
+theorem lcc_scale_on_parallel1 (k1 scbet0 tchi0 scchi0 n nc scbet1 tchi1 scchi1 : ℝ)
+    (hb0 : scbet0 ≠ 0) (hb1 : scbet1 ≠ 0) (he : epPsi tchi1 scchi1 ≠ 0) (h0 : scchi0 + tchi0 ≠ 0) :
+    lccK (lccK0 k1 scbet0 tchi0 scchi0 n nc scbet1 tchi1 scchi1) scbet0 tchi0 scchi0 n nc scbet1 tchi1 scchi1
+      (Dasinh tchi1 tchi0 scchi1 scchi0 * (tchi1 - tchi0)) = k1 := by
+  unfold lccK lccK0
+  simp only [exp_real]
+  have e : ∀ c D d : ℝ, c * (D * d) = c * D * d := fun c D d => by ring
+  rw [e]
+  field_simp
+
+/-- the coded `dpsi` of `Forward` is `ψ − ψ0` -/
+theorem lcc_dpsi (tchi tchi0 : ℝ) :
+    Dasinh tchi tchi0 (hyp tchi) (hyp tchi0) * (tchi - tchi0) = Real.arsinh tchi - Real.arsinh tchi0 := by
+  by_cases h : tchi = tchi0
+  · rw [h]; simp
+  · rw [Dasinh_dd _ _ h]
+    have : tchi - tchi0 ≠ 0 := sub_ne_zero.mpr h
+    field_simp
+
+/-- **`Reverse` recovers `drho`** (both conic classes): from `x = ρ sin θ`, `y = ρ0 − ρ cos θ` the coded expression
+    `(x·nx + y·(ny − 2 nρ0)) / (hypot(nx, nρ0 − ny) + nρ0)` is `ρ − ρ0` (`n > 0`, `ρ > 0`, `ρ0 ≥ 0`). -/
+theorem cone_reverse_drho (n ρ ρ0 s c : ℝ) (hn : 0 < n) (hρ : 0 < ρ) (hρ0 : 0 ≤ ρ0) (hsc : s ^ 2 + c ^ 2 = 1) :
+    let x := ρ * s
+    let y := ρ0 - ρ * c
+    coneDrhoRev (n * ρ0) (n * x) (n * y) x y (RealLike.hypot (n * x) (n * ρ0 - n * y) + n * ρ0) = ρ - ρ0 := by
+  intro x y
+  have hh : RealLike.hypot (n * x) (n * ρ0 - n * y) = n * ρ := by
+    rw [hypot_real]
+    have : (n * x) ^ 2 + (n * ρ0 - n * y) ^ 2 = (n * ρ) ^ 2 := by
+      simp only [x, y]
+      linear_combination (n ^ 2 * ρ ^ 2) * hsc
+    rw [this]
+    exact Real.sqrt_sq (by positivity)
+  unfold coneDrhoRev
+  rw [hh]
+  simp only [two_real, x, y]
+  have hden : n * ρ + n * ρ0 ≠ 0 := by positivity
+  rw [div_eq_iff hden]
+  linear_combination (n * ρ ^ 2) * hsc
+
+/-- **LCC `Reverse` recovers `dpsi`**: with `t0nm1 = e^{−nψ0} − 1`, `drho = (scale/n)(e^{−nψ} − e^{−nψ0})`, the coded
+    `tnm1 = t0nm1 + n drho/scale` is `e^{−nψ} − 1` and `−Dlog1p(tnm1, t0nm1)·drho/scale = ψ − ψ0`. -/
+theorem lcc_reverse_dpsi (scale n psi psi0 : ℝ) (hn : n ≠ 0) (hs : scale ≠ 0) (hne : psi ≠ psi0) :
+    let drho := scale / n * (Real.exp (-n * psi) - Real.exp (-n * psi0))
+    let t0nm1 := expm1 (-n * psi0)
+    let tnm1 := t0nm1 + n * drho / scale
+    tnm1 = Real.exp (-n * psi) - 1 ∧ lccDpsiRev t0nm1 scale tnm1 drho = psi - psi0 := by
+  intro drho t0nm1 tnm1
+  have ht : tnm1 = Real.exp (-n * psi) - 1 := by
+    simp only [tnm1, t0nm1, drho, expm1_real]
+    field_simp
+    ring
+  refine ⟨ht, ?_⟩
+  unfold lccDpsiRev
+  have h0 : t0nm1 = Real.exp (-n * psi0) - 1 := by simp only [t0nm1, expm1_real]
+  have hx : -1 < tnm1 := by rw [ht]; linarith [Real.exp_pos (-n * psi)]
+  have hy : -1 < t0nm1 := by rw [h0]; linarith [Real.exp_pos (-n * psi0)]
+  have hexp : Real.exp (-n * psi) ≠ Real.exp (-n * psi0) := by
+    intro h
+    have := Real.exp_injective h
+    apply hne
+    have h' : n * (psi - psi0) = 0 := by linarith
+    rcases mul_eq_zero.mp h' with h'' | h''
+    · exact absurd h'' hn
+    · linarith
+  have hxy : tnm1 ≠ t0nm1 := by
+    rw [ht, h0]
+    intro h
+    apply hexp
+    linarith
+  rw [Dlog1p_dd _ _ hx hy hxy, ht, h0]
+  have e1 : (1 : ℝ) + (Real.exp (-n * psi) - 1) = Real.exp (-n * psi) := by ring
+  have e2 : (1 : ℝ) + (Real.exp (-n * psi0) - 1) = Real.exp (-n * psi0) := by ring
+  rw [e1, e2, Real.log_exp, Real.log_exp]
+  have hd : Real.exp (-n * psi) - 1 - (Real.exp (-n * psi0) - 1) ≠ 0 := by
+    intro h
+    apply hexp
+    linarith
+  simp only [drho]
+  have hd' : Real.exp (-n * psi) - Real.exp (-n * psi0) ≠ 0 := sub_ne_zero.mpr hexp
+  generalize Real.exp (-n * psi) = A at hd' ⊢
+  generalize Real.exp (-n * psi0) = B at hd' ⊢
+  have e3 : A - 1 - (B - 1) = A - B := by ring
+  rw [e3]
+  field_simp
+  ring
+
+/-- **LCC `Reverse`, `2n ≤ 1`**: `tchi0 + Dsinh(…)·dpsi = sinh ψ` -/
+theorem lcc_reverse_tchiA (psi psi0 : ℝ) :
+    lccTchiA psi0 (Real.sinh psi0) (Real.cosh psi0) (psi - psi0) = Real.sinh psi := by
+  unfold lccTchiA
+  simp only [sinh_real]
+  have e : psi0 + (psi - psi0) = psi := by ring
+  rw [e, hyp_sinh]
+  by_cases h : psi = psi0
+  · rw [h]; simp
+  · rw [Dsinh_dd _ _ h]
+    have : psi - psi0 ≠ 0 := sub_ne_zero.mpr h
+    field_simp
+    ring
+
+/-- **LCC `Reverse`, `2n > 1`**: from `tn = e^{−nψ}` the coded combination of `sinh((1−n)ψ)` and `tn ± 1/tn` is `sinh ψ` -/
+theorem lcc_reverse_tchiB (n nc psi : ℝ) (hn : n ≠ 0) (h1n : 1 + n ≠ 0) (hnc : nc ^ 2 = (1 - n) * (1 + n)) :
+    lccTchiB n nc (Real.exp (-n * psi) - 1) (Real.exp (-n * psi)) = Real.sinh psi := by
+  unfold lccTchiB
+  have hlog : (if RealLike.ltb (1 : ℝ) (2 * Real.exp (-n * psi)) then log1p (Real.exp (-n * psi) - 1) else RealLike.log (Real.exp (-n * psi))) = -n * psi := by
+    split
+    · rw [log1p_real]
+      have : (1 : ℝ) + (Real.exp (-n * psi) - 1) = Real.exp (-n * psi) := by ring
+      rw [this, Real.log_exp]
+    · rw [log_real, Real.log_exp]
+  simp only [one_real, two_real] at hlog ⊢
+  rw [hlog]
+  simp only [sq_real, sinh_real]
+  have harg : -(nc ^ 2) / (n * (1 + n)) * (-n * psi) = (1 - n) * psi := by
+    rw [hnc]; field_simp
+  rw [harg, hyp_sinh]
+  have hE := Real.exp_pos (-n * psi)
+  have hs : Real.sinh (n * psi) = (1 / Real.exp (-n * psi) - Real.exp (-n * psi)) / 2 := by
+    rw [Real.sinh_eq, one_div, ← Real.exp_neg]; congr 2 <;> ring_nf
+  have hc : Real.cosh (n * psi) = (Real.exp (-n * psi) + 1 / Real.exp (-n * psi)) / 2 := by
+    rw [Real.cosh_eq, one_div, ← Real.exp_neg]
+    have : -(-n * psi) = n * psi := by ring
+    rw [this, show -(n * psi) = -n * psi by ring]; ring
+  have hsum : Real.sinh psi = Real.sinh ((1 - n) * psi) * Real.cosh (n * psi) + Real.cosh ((1 - n) * psi) * Real.sinh (n * psi) := by
+    rw [← Real.sinh_add]; congr 1; ring
+  rw [hsum, hs, hc]
+  have hne := hE.ne'
+  field_simp
+  ring
 
 end GeoVerif.Props.C11
